@@ -234,7 +234,9 @@ func init() {
 						}
 					}
 					if class == "normal" || class == "nonl" {
-						for _, ln := range []string{"short", "long", "dotdot"} {
+						// (also: a script file whose name ends in a blank, with a decoy at the name without it; script files
+						// whose own permission bits are not 0755 - the slot's mode is the format's, not the file's)
+						for _, ln := range []string{"short", "long", "dotdot", "blank-name", "mode-0600", "mode-0775", "mode-0711"} {
 							if !yield(C09Case{Format: f, Subset: full(n), Class: class, Link: ln}) {
 								return
 							}
@@ -401,7 +403,24 @@ func checkC09(env *engine.Env, ci any) engine.Outcome {
 	}
 	pathOf := func(class, key string) string {
 		p := scriptPath(t, class, key)
-		if c.Link != "" && class != "decoy" {
+		if (c.Link == "blank-name" || strings.HasPrefix(c.Link, "mode-")) && class != "decoy" {
+			mode := os.FileMode(0o755)
+			np := filepath.Join(filepath.Dir(p), "alt-"+c.Link+"-"+filepath.Base(p))
+			if c.Link == "blank-name" {
+				os.WriteFile(np, scriptBytes("decoy", key), 0o755) // what a path with its blank trimmed would find
+				np += " "
+			} else {
+				var m uint32
+				fmt.Sscanf(strings.TrimPrefix(c.Link, "mode-"), "%o", &m)
+				mode = os.FileMode(m)
+			}
+			os.Remove(np)
+			if err := os.WriteFile(np, scriptBytes(class, key), mode); err == nil {
+				os.Chmod(np, mode)
+				os.Chtimes(np, fixture.T0, fixture.T0)
+				p = np
+			}
+		} else if c.Link != "" && class != "decoy" {
 			// <dir>/ln-<key>.sh -> the script (relative link text), or via a long absolute spelling
 			lp := filepath.Join(filepath.Dir(p), "ln-"+c.Link+"-"+filepath.Base(p))
 			target := filepath.Base(p)
